@@ -178,6 +178,42 @@ def run(ctx, rep):
                      {"frame": bytes(f).hex(), "accepted": o[1][0][0], "id": o[1][1][0], "expected": (start + 1 + k) % 256})
             break
 
+    # ---- emission order != construction order; a command object emitted again after its attributes changed ---------------
+    # (commands are built in batches, emitted shuffled, set-state objects are modified and emitted once more: every EMITTED
+    #  frame is the model's frame for the attributes and the counter at emission time, ids advance by one per emission)
+    C.Command._message_id = start = rng.randrange(256)
+    emitted = []     # (kind, params at emission, frame)
+    for batch in range(ctx.n(40, 400)):
+        objs = []
+        for _ in range(rng.randrange(2, 6)):
+            kind, p = rng.choice([(0, [0]), (0, [1]), (1, []), (2, []), (3, []), (5, [1]), (6, [9, 10]), (4, None), (4, None)])
+            if kind == 4:
+                p = [rng.randrange(2), rng.randrange(2), rng.randrange(17, 31), rng.randrange(2), rng.randrange(1, 6), rng.choice([20, 40, 60, 80, 102]),
+                     rng.choice([0, 3, 12, 15]), rng.randrange(2), rng.randrange(2), rng.randrange(2), rng.randrange(2), rng.randrange(2), rng.randrange(2),
+                     rng.randrange(2), rng.randrange(30, 100), rng.randrange(2), rng.randrange(2), rng.randrange(2)]
+            objs.append([kind, list(p), make_cmd(C, kind, p)])
+        rng.shuffle(objs)
+        for kind, p, o in objs:
+            emitted.append((kind, list(p), list(o.tobytes())))
+        for kind, p, o in objs:
+            if kind == 4 and rng.random() < 0.6:      # change the object, emit it again
+                p[2] = rng.randrange(17, 31); p[4] = rng.randrange(1, 6); p[1] = 1 - p[1]
+                o.target_temperature = p[2] + (0.5 if p[3] else 0.0); o.operational_mode = p[4]; o.power_on = bool(p[1])
+                emitted.append((kind, list(p), list(o.tobytes())))
+    mo = ctx.model.batch([(F_EMIT, [[(start + k) % 65536], [kind], p]) for k, (kind, p, f) in enumerate(emitted)])
+    ao = ctx.model.batch([(F_ACCEPT, [[doc_type(kind)], f]) for kind, p, f in emitted])
+    for k, ((kind, p, f), m, a) in enumerate(zip(emitted, mo, ao)):
+        rep.case(("reorder", k % 256, tuple(f)), "reordered-sequence")
+        inp = {"start": start, "emission_index": k, "kind": kind, "params": p,
+               "note": "objects built in batches, emitted in another order, set-state objects changed and emitted again"}
+        if not a[1][0][0] or a[1][1][0] != (start + 1 + k) % 256:
+            rep.fail("oracle", "sequence-id:emission-order" if a[1][0][0] else "frame-rejected-by-reference-parser:re-emitted", inp,
+                     {"frame": bytes(f).hex(), "accepted": a[1][0][0], "id": a[1][1][0], "expected": (start + 1 + k) % 256})
+            break
+        if m[0] != 0 or m[1][0] != f:
+            rep.fail("corr", "emit-reordered", inp, {"impl": f, "model": m})
+            break
+
 
 def in_domain(C, kind, p):
     """The documented parameter domain on which a frame must be produced (C12_total's hypotheses)."""
